@@ -162,3 +162,65 @@ def binary_searches(R, ctx, rid):
                  (" - 1" if closed else "", "closed" if closed else "half-open", "<=" if rv["bin"] == "Le" else "<",
                   "the last candidate is never examined" if closed else "the loop does not terminate on a single candidate"), "%s:%s" % (fn.file, st["line"]))
     R.floor(rid, "bisection loops", n, 2)
+
+
+def _any_variant_of_from(Y, src_ty):
+    """the Any variant `impl From<src_ty> for Any` builds (from that impl's own body)."""
+    fn = Y.fns.get("<yrs::any::Any as std::convert::From<%s>>::from" % src_ty)
+    if fn is None or not fn.mir:
+        return None
+    vs = {st["rv"]["agg"].get("variant") for i, j, st in fn.stmts() if "agg" in st["rv"] and st["rv"]["agg"].get("adt") == "yrs::any::Any"}
+    if len(vs) == 1:
+        return vs.pop()
+    # forwarding impls (From<&str> -> From<String> ...): follow one call
+    for c in fn.calls():
+        m = re.match(r"^<yrs::any::Any as std::convert::From<(.*)>>::from$", c.name)
+        if m:
+            return _any_variant_of_from(Y, m.group(1))
+        if c.name.endswith("::into") and c.t.get("arg_tys") and c.t.get("dest_ty") == "yrs::any::Any":
+            return _any_variant_of_from(Y, c.t["arg_tys"][0])
+    return None
+
+
+def options_codec(R, ctx, rid):
+    Y = ctx.yrs
+    from ylib.facts import hir_walk
+    R.rule(rid, "R-TABLE key -> kind of value in the options map of a sub-document (ContentDoc): for every key that both "
+                "Options::as_any writes and Options::decode matches with a specific Any variant (gc: Bool, autoLoad: Bool, "
+                "collectionId: String, encoding: BigInt) the variant the writer builds — an Any aggregate, or the variant the "
+                "resolved `impl From<T> for Any` of the argument's type builds — is the variant the reader's pattern expects. The "
+                "reader falls through to a default for any other kind (`('encoding', _) => Utf16`), so a writer that switches to a "
+                "generic constructor (a number for a big integer) round-trips to a different option without any error")
+    w = Y.fn("yrs::doc::Options::as_any")
+    wv = FnView(w)
+    written = {}
+    for cs in w.calls_to("re:HashMap(<.*>)?::insert$"):
+        key = simp_deep(wv.arg(cs, 1, 10))
+        ks = [x[1] for x in walk(key) if x[0] == "const" and isinstance(x[1], str)]
+        if not ks:
+            continue
+        d = mir_def(w, cs.args[2])
+        var = None
+        if d and d[0] == "stmt" and isinstance(d[1].get("agg"), dict) and d[1]["agg"].get("adt") == "yrs::any::Any":
+            var = d[1]["agg"].get("variant")
+        elif d and d[0] == "call" and d[1].t.get("dest_ty") == "yrs::any::Any" and d[1].t.get("arg_tys"):
+            m = re.match(r"^<yrs::any::Any as std::convert::From<(.*)>>::from$", d[1].name)
+            var = _any_variant_of_from(Y, m.group(1) if m else d[1].t["arg_tys"][0])
+        written[ks[0].strip('"')] = (var, cs.loc())
+    r = Y.fn("<yrs::doc::Options as yrs::updates::decoder::Decode>::decode")
+    expected = {}
+    for n in hir_walk(r.hir):
+        if isinstance(n, dict) and n.get("k") == "ptuple" and len(n.get("subs", [])) == 2 and n["subs"][0].get("k") == "plit":
+            key = str(n["subs"][0].get("v"))
+            p = n["subs"][1]
+            if p.get("k") in ("ptuple_struct", "pstruct") and str(p.get("def", "")).startswith("yrs::any::Any::"):
+                expected.setdefault(key, set()).add(p["def"].rsplit("::", 1)[-1])
+    R.floor(rid, "keys the reader matches with a specific Any variant", len(expected), 4)
+    for key, vs in sorted(expected.items()):
+        got = written.get(key)
+        if got is None:
+            R.inventory(rid, w, "key:" + key, "matched by the reader, not written by Options::as_any")
+            continue
+        ok = got[0] in vs
+        R.ob(rid, w, "key:" + key, ok, "`%s` is written as Any::%s, read as Any::%s" % (key, got[0], sorted(vs)) if ok else
+             "`%s` is written as Any::%s but the reader expects Any::%s and silently takes its default for anything else" % (key, got[0], sorted(vs)), got[1])
